@@ -20,7 +20,7 @@ class C10(Prop):
         "data sets with a feature column inside X (polars frame or numpy matrix; numeric incl. None / NaN / inf / Int64 / "
         "constant / all-null, or string / Categorical / Enum with names sorting after 'other', containing 'other ', real "
         "categories called 'other 2'), a second numeric column, weights none / positive, all 10 bin methods, n_bins 2..12, "
-        "predict functions a*x_j*x_k + b*x_k^2 + c*x_j (numeric) or value(category)*x_k + c (string) that record every feature "
+        "1-3 prediction columns (also a polars frame with unsorted column names, and 11 columns), predict functions a*x_j*x_k + b*x_k^2 + c*x_j (numeric) or value(category)*x_k + c (string) that record every feature "
         "value they are shown, n_max below / above n, seeds. Compared with the model row by row: feature value / label, "
         "y_obs_mean, y_pred_mean, both standard errors, count, weights, bin_edges = (lower, sqrt(model variance), upper). "
         "Oracle on the implementation: totals, y_pred_mean - y_obs_mean = compute_bias's bias_mean of the same call row by "
@@ -39,7 +39,11 @@ class C10(Prop):
             pred = [v if rng.random() < 0.2 else rng.randint(-8, 16) / 4 for v in y]
             w = None if rng.random() < 0.4 else [rng.choice([1.0, 2.0, 3.0, 0.5, 0.25]) for _ in range(n)]
             other = [float(rng.randint(-3, 5)) for _ in range(n)]
-            c = {"stream": "marginal", "y": y, "pred": pred, "w": w, "other": other, "n_bins": rng.randint(2, 12),
+            nm = 1 if rng.random() < 0.65 else rng.choice([2, 3, 11])
+            preds = [pred] + [[rng.randint(-8, 16) / 4 for _ in range(n)] for _ in range(nm - 1)]
+            from .decomp_common import gen_colnames
+
+            c = {"stream": "marginal", "y": y, "pred": pred, "preds": preds, "colnames": gen_colnames(rng, nm) if 2 <= nm <= 3 else None, "w": w, "other": other, "n_bins": rng.randint(2, 12),
                  "method": rng.choice(tc.ALL_METHODS[:2] * 2 + tc.NUMPY_METHODS), "a": rng.randint(-2, 3), "b": rng.randint(-1, 2),
                  "c": rng.randint(-1, 3), "n_max": rng.choice([1000, 1000, max(1, n - 1), max(1, n // 2)]), "seed": rng.randint(0, 10**6),
                  "with_pd": rng.random() < 0.8}
@@ -72,7 +76,14 @@ class C10(Prop):
 
         X, fname = self.build(case)
         y = np.array(case["y"])
-        p = np.array(case["pred"])
+        preds = case.get("preds") or [case["pred"]]
+        nm = len(preds)
+        if nm == 1:
+            p = np.array(preds[0])
+        elif case.get("colnames"):
+            p = pl.DataFrame({nm_: [float(v) for v in col] for nm_, col in zip(case["colnames"], preds)})
+        else:
+            p = np.array(preds).T
         w = None if case["w"] is None else np.array(case["w"])
         a, b, c = case["a"], case["b"], case["c"]
         seen = []
@@ -106,7 +117,7 @@ class C10(Prop):
             if isinstance(fv, float) and math.isnan(fv):
                 fv = "nan"
             be = r.get("bin_edges")
-            rows.append({"f": fv, "yo": r["y_obs_mean"], "yp": r["y_pred_mean"], "so": r["y_obs_stderr"], "sp": r["y_pred_stderr"],
+            rows.append({"model": r.get("model"), "f": fv, "yo": r["y_obs_mean"], "yp": r["y_pred_mean"], "so": r["y_obs_stderr"], "sp": r["y_pred_stderr"],
                          "count": r["count"], "weights": r["weights"], "edges": None if be is None else [None if v is None else float(v) for v in be],
                          "pd": r.get("partial_dependence")})
         out = {"rows": rows, "columns": df.columns, "seen": [("nan" if isinstance(v, float) and math.isnan(v) else v) for v in seen]}
@@ -115,6 +126,7 @@ class C10(Prop):
             ser = feature_series(case)
             bdf = compute_bias(y, p, feature=ser, weights=w, functional="mean", n_bins=case["n_bins"], bin_method=case["method"])
             out["bias"] = [r["bias_mean"] for r in bdf.iter_rows(named=True)]
+            out["bias_models"] = [r.get("model") for r in bdf.iter_rows(named=True)]
             with pl.StringCache():
                 _, _, fb = bin_feature(ser, None, len(y), case["n_bins"], case["method"])
                 out["bins"] = fb.get_column("bin").to_list()
@@ -141,23 +153,38 @@ class C10(Prop):
         return out
 
     def model_request(self, case):
-        r = {"op": "table", "w": enc_list(Fraction(v) for v in (case["w"] or [1.0] * len(case["y"]))),
-             "cols": [enc_list(Fraction(v) for v in case["y"]), enc_list(Fraction(v) for v in case["pred"])]}
-        if case["fkind"] == "numeric":
-            r.update(kind="num", method=case["method"], n_bins=case["n_bins"], feature=[tc.cell_json(v) for v in fvalues(case)],
-                     given=[enc(Fraction(v)) for v in tc.given_edges(case["method"], feature_series(case))])
-        else:
-            r.update(kind="str", n_bins=case["n_bins"], feature=case["feature"])
-            if case.get("enum") is not None:
-                r["enum"] = case["enum"]
-        return r
+        reqs = []
+        for pred in (case.get("preds") or [case["pred"]]):
+            r = {"op": "table", "w": enc_list(Fraction(v) for v in (case["w"] or [1.0] * len(case["y"]))),
+                 "cols": [enc_list(Fraction(v) for v in case["y"]), enc_list(Fraction(v) for v in pred)]}
+            if case["fkind"] == "numeric":
+                r.update(kind="num", method=case["method"], n_bins=case["n_bins"], feature=[tc.cell_json(v) for v in fvalues(case)],
+                         given=[enc(Fraction(v)) for v in tc.given_edges(case["method"], feature_series(case))])
+            else:
+                r.update(kind="str", n_bins=case["n_bins"], feature=case["feature"])
+                if case.get("enum") is not None:
+                    r["enum"] = case["enum"]
+            reqs.append(r)
+        return reqs
 
-    def compare(self, case, io, mo):
+    def compare(self, case, io, mos):
         if "err" in io:
             return f"valid call rejected: {io['err']}: {io.get('msg')}"
+        nm = len(mos)
+        per = len(io["rows"]) // nm
+        labels = case.get("colnames") or [str(q) for q in range(nm)]
+        for m, mo in enumerate(mos):
+            e = self.compare_one(case, {**io, "rows": io["rows"][m * per:(m + 1) * per]}, mo, labels[m] if nm > 1 else None)
+            if e:
+                return (f"model column {m}: " if nm > 1 else "") + e
+        return None
+
+    def compare_one(self, case, io, mo, label):
         if len(io["rows"]) != len(mo["rows"]):
             return f"{len(io['rows'])} rows vs model {len(mo['rows'])}"
         for k, (a, b) in enumerate(zip(io["rows"], mo["rows"])):
+            if a.get("model") != label:
+                return f"row {k} is labelled {a.get('model')!r}, expected {label!r}"
             if case["fkind"] == "numeric":
                 fb = tc.cell_val(b["feat"])
                 fa = None if a["f"] is None else (math.nan if a["f"] == "nan" else float(a["f"]))
@@ -165,7 +192,8 @@ class C10(Prop):
                     fb = None
                 elif fb is None:
                     fb = math.nan
-                if not feq(fa, fb):
+                f32 = case["kind"] == "float32_nan"  # float32 columns: polars' mean / std are float32
+                if not feq(fa, fb, 1e-6 if f32 else 1e-9):
                     return f"row {k}: feature value {a['f']!r} vs model {fb!r}"
                 eb = b["edges"]
                 sd = None if b["fvar"] is None else math.sqrt(float(dec(b["fvar"])))
@@ -177,7 +205,7 @@ class C10(Prop):
                     if b["key"] is None and pos == 1:
                         continue  # std of the null group's (null) feature values: polars gives null or 0.0
                     uu = None if (u is None or (isinstance(u, float) and math.isnan(u))) else u
-                    if not (feq(uu, v) or (uu is not None and v is not None and abs(uu - v) < 1e-9)):
+                    if not (feq(uu, v, 1e-6 if f32 else 1e-9) or (uu is not None and v is not None and abs(uu - v) < (1e-6 if f32 else 1e-9))):
                         return f"row {k}: bin_edges {got} vs model {want}"
             else:
                 if a["f"] != b["key"]:
@@ -200,6 +228,17 @@ class C10(Prop):
     def oracle(self, case, io):
         if "err" in io:
             return f"valid call rejected: {io['err']}: {io.get('msg')}"
+        nm = len(case.get("preds") or [1])
+        per = len(io["rows"]) // nm
+        if "bias" in io and len(io["bias"]) == len(io["rows"]):
+            for r, bm, bmod in zip(io["rows"], io["bias"], io.get("bias_models", [None] * len(io["rows"]))):
+                if r.get("model") != bmod:
+                    return f"row labelled {r.get('model')!r} faces compute_bias row labelled {bmod!r}"
+                if not feq(r["yp"] - r["yo"], bm) and abs(r["yp"] - r["yo"] - bm) > 1e-9:
+                    return f"y_pred_mean - y_obs_mean = {r['yp'] - r['yo']!r} differs from compute_bias's bias_mean {bm!r} (model {bmod!r})"
+        if nm > 1:
+            # the remaining clauses are checked on the first model's block (same feature, same bins)
+            io = {**io, "rows": io["rows"][:per], "bias": io.get("bias", [])[:per], "direct": io.get("direct", [])[:per]}
         rows = io["rows"]
         n = len(case["y"])
         ws = [Fraction(1)] * n if case["w"] is None else [Fraction(v) for v in case["w"]]
@@ -243,7 +282,7 @@ class C10(Prop):
                     if all(math.isfinite(v) for v in members):
                         m = sum(members) / len(members)
                         ref = math.sqrt(sum((v - m) ** 2 for v in members) / len(members))
-                        if sd is None or abs(sd - ref) > 1e-9 * max(1.0, ref):
+                        if sd is None or abs(sd - ref) > (1e-5 if case["kind"] == "float32_nan" else 1e-9) * max(1.0, ref):
                             return f"middle entry of bin_edges {sd!r} is not the standard deviation {ref!r} of the members' feature values"
         if not case["with_pd"]:
             return None
@@ -271,7 +310,7 @@ class C10(Prop):
             a, b, c = case["a"], case["b"], case["c"]
             xk = [Fraction(v) for v in case["other"]]
             for r in rows:
-                g = Fraction(r["f"])
+                g = Fraction(r["f"])  # the grid value the implementation itself reports (float32 columns: float32 mean)
                 vals = [a * g * k + b * k * k + c * g for k in xk]
                 ref = sum(w * v for w, v in zip(ws, vals)) / sum(ws)
                 if abs(r["pd"] - float(ref)) > 1e-9 * max(1.0, abs(float(ref))):
